@@ -129,6 +129,12 @@ for fl in FLAVS:
 for fl in FLAVS:
     add(fid, "result", fl, ttl=2, result="short")
     fid += 1
+# ... under an entry limit: a refresh of an expired Ok that fails must leave no trace in the capacity accounting
+for fl in FLAVS:
+    for lim in (1, 2):
+        for pol in (None, "lru"):
+            add(fid, "result", fl, policy=pol, limit=lim, ttl=2, result="short")
+            fid += 1
 # --- cache_if
 fid = 3000
 for fl in FLAVS:
